@@ -47,8 +47,40 @@ def _c09(tier="quick", seed=0):
     return out
 
 
+def _replay_run_optimization_restores():
+    """replay on the REAL Project.run_optimization: a stored optimization whose evaluation fails (its measurable names an output the model does not have);
+    the project's end year must be what it was before the call"""
+    _quiet()
+    import atomica as at
+
+    P = at.demo("tb_simple", do_run=False)
+    end0 = P.settings.sim_end
+
+    class _Ins:
+        json = {"end_year": 2020.0, "optim_type": "outcome"}
+
+        def make(self, project):
+            ins = at.ProgramInstructions(alloc=project.progsets[0], start_year=2019)
+            adj = [at.SpendingAdjustment(p, 2019, "abs", 0.0, 1e9) for p in project.progsets[0].programs.keys()]
+            opt = at.Optimization(name="o", adjustments=adj, measurables=[at.MaximizeMeasurable("no_such_output", 2020)], constraints=None, maxiters=2, method="asd")
+            opt.parsetname, opt.progsetname = 0, 0
+            return opt, ins
+
+    P.optim = lambda name=None: _Ins()
+    failed = None
+    try:
+        P.run_optimization("o")
+    except Exception as e:  # noqa
+        failed = "%s: %s" % (type(e).__name__, str(e)[:80])
+    pre = dict(project="tb_simple", end_year_before=float(end0), optimization_end_year=2020.0, evaluation="fails (%s)" % failed)
+    if P.settings.sim_end != end0:
+        return dict(verdict="violates", detail="after the failed optimization the project's end year is %r, it was %r before the call" % (float(P.settings.sim_end), float(end0)), prestate=pre)
+    return dict(verdict="holds", detail="the project's end year is %r before and after the failed optimization" % float(end0), prestate=pre)
+
+
 def _c15(tier="quick", seed=0):
-    return flow.restored_in_finally("calibration:calibrate", "project.settings.sim_end", "original_sim_end")
+    out = flow.restored_in_finally("calibration:calibrate", "project.settings.sim_end", "original_sim_end")
+    return out + _attach(flow.restored_in_finally("project:Project.run_optimization", "self.settings.sim_end", "original_end"), "restored-on-every-exit", _replay_run_optimization_restores)
 
 
 def _c17(tier="quick", seed=0):
